@@ -155,11 +155,28 @@ def marg(v):
 
 
 def output_oracle(R, sm, case):
-    """output(): normalised to unit total, discard only below the threshold, explicit empty result."""
+    """output(): normalised to unit total, discard only below the threshold, explicit empty result -- for no discard, the usual
+    settings and discards placed so that the threshold (a fraction of the LARGEST stored probability) falls between stored values"""
+    ids, lnps, scales, tried = expected(case)
+    n_samples = max(tried, 1)
+    discards = [0, 0.5, 10, 1000]
+    margs0 = sorted(set(x for x in (marg(v) for v in lnps) if x != NINF), reverse=True)
+    for a, b in list(zip(margs0, margs0[1:]))[:3]:
+        discards.append(math.exp(margs0[0] - (a + b) / 2.0) / n_samples)
+    last = (None, None)
+    for discard in discards:
+        why, rec = output_oracle_one(R, sm, case, discard)
+        if why:
+            return why, rec
+        if discard == 10:
+            last = (why, rec)
+    return last
+
+
+def output_oracle_one(R, sm, case, discard):
     ids, lnps, scales, tried = expected(case)
     s = drive(sm, case)
     n_samples = max(tried, 1)
-    discard = R.rng.choice([0, 0, 10, 1000, 0.5])
     try:
         with np.errstate(all='ignore'):
             out, _ = s.output(normalise=True, convert=False, n_samples=n_samples, discard=discard)
